@@ -26,28 +26,25 @@ def harnesses(tier):
         Harness("c03_divrem_bounded", "operands in [-256,255] ∪ {MIN,MIN+1,MAX-1,MAX}; op in {/,/=,%,%=}",
                 [F_BIN], "quotient/remainder or DivisionByZero/Overflow", timeout=1200, mod=M),
     ]
+    hs += [
+        Harness("c03_unary_on_values", "operand: all i64; + - ! ~ and ++ -- (prefix, postfix) applied to a value",
+                ["yash_arith::eval::apply_prefix", "yash_arith::eval::apply_postfix"],
+                "exact value, Overflow for -MIN, AssignmentToValue for ++/-- on a non-variable; nothing assigned", timeout=900, mod=M),
+    ]
+    for nm, tpl in [("or", "l || 1/0"), ("and", "l && 1/0")]:
+        hs.append(Harness("c03_lazy_" + nm, "template `%s` built as an AST; c / l: all i64" % tpl,
+                          ["yash_arith::eval::eval", "yash_arith::eval::apply_binary", "yash_arith::eval::into_value"],
+                          "unevaluated operands are not evaluated (raise nothing); the evaluated one is; && || yield 0/1",
+                          timeout=900, mod=M))
+    hs += [
+    ]
     MA = "ast::verif_c03_ast"
-    P = ["yash_arith::ast::parse", "yash_arith::ast::parse_tree", "yash_arith::ast::parse_leaf", "yash_arith::ast::parse_postfix",
-         "yash_arith::ast::parse_binary_rhs", "yash_arith::token::PeekableTokens::next", "yash_arith::token::PeekableTokens::peek"]
     T = ["yash_arith::ast::Operator::precedence", "yash_arith::ast::Operator::as_binary", "yash_arith::ast::Operator::as_prefix",
          "yash_arith::ast::Operator::as_postfix"]
-    stub = ["yash_arith::token::Tokens::next_token -> token queue (the text tokenizer is outside; the parser consumes symbolic tokens)"]
     hs += [
         Harness("c03_operator_tables", "every pair of the 37 operator tokens", T,
                 "precedence and associativity follow ISO C 6.5; each token denotes its C operator", timeout=600, mod=MA),
-        Harness("c03_parse_shape_binary", "token sequences '1 a 2 b 3' for every pair (a, b) of the 29 binary operators", P + T,
-                "the real parser groups by C precedence and associativity", timeout=1500, mod=MA, stubs=stub),
-        Harness("c03_parse_shape_conditional", "'1 a 2 ? 3 : 4' and '1 ? 2 : 3 a 4' for every binary operator a", P + T,
-                "?: binds between assignment and ||, else-branch extends right", timeout=1500, mod=MA, stubs=stub),
-        Harness("c03_parse_shape_unary", "'p 1 a 2' for every prefix operator p and binary operator a", P + T,
-                "unary operators bind tighter than binary ones", timeout=1500, mod=MA, stubs=stub),
     ]
-    for n in (1, 2, 3) + ((4,) if tier == "thorough" else ()):
-        hs.append(Harness("c03_parse_total_%d" % n,
-                          "every sequence of %d tokens, each any i64 constant, a variable, or any of the 37 operators" % n,
-                          P + ["yash_arith::eval::eval"],
-                          "parser total (tree or syntax error, no panic); every tree it returns evaluates without a panic",
-                          timeout=2400, mod=MA, stubs=stub))
     return hs
 
 
